@@ -339,6 +339,44 @@ Proof.
   intros H. unfold with_key. rewrite run_bind. cbn [run]. rewrite H. destruct dp; reflexivity.
 Qed.
 
+
+(* ---------------------------------------------------------------- what follows the closure of a scoped call *)
+(* releases, flag writes, the key: no acquisition and no closure-entry marker *)
+Definition rop_acq (k : rop) : bool := match k with OLock | OTry | OLockSh | OTrySh => true | _ => false end.
+Definition tailop (o : op) : Prop := match o with ORaw k _ => rop_acq k = false | OMark _ => False | _ => True end.
+Definition tail_ev (e : ev) : Prop := match e with ERaw _ k _ _ => rop_acq k = false | EMark _ _ => False | _ => True end.
+
+Lemma run_tail pw t p w out w' :
+  ops_in tailop p -> run pw t p w = (out, w') -> exists evs, w_trace w' = evs ++ w_trace w /\ Forall tail_ev evs.
+Proof.
+  intros Ho R.
+  destruct (run_ops_inv pw t tailop (fun _ => True) tail_ev) with (p := p) (w := w) (out := out) (w' := w') as [_ H]; auto.
+  intros o w1 Ao _. destruct o; simpl in Ao |- *; try contradiction;
+    try (split; [exact I|exists []; split; [reflexivity|constructor]]);
+    try (split; [exact I|eexists [_]; split; [reflexivity|repeat constructor]]).
+  destruct (faulty w1 k l); [split; [exact I|eexists [_]; split; [reflexivity|repeat constructor; exact Ao]]|].
+  destruct (raw_apply t k (w_raw w1 l) (pw l)); (split; [exact I|eexists [_]; split; [reflexivity|repeat constructor; exact Ao]]).
+Qed.
+
+Lemma rr_unlock_tail m r : ops_in tailop (rr_unlock m r).
+Proof.
+  induction r as [k l|u inner IH] using rawref_ind'; cbn [rr_unlock].
+  - unfold leaf_unlock. constructor; apply ops_in_op_; simpl; [destruct k, m; reflexivity|exact I].
+  - apply ops_in_seqs. rewrite Forall_forall in *. intros p Hp. apply in_map_iff in Hp. destruct Hp as [x [<- Hx]]. now apply IH.
+Qed.
+
+Lemma raw_unlock_tail m a : ops_in tailop (raw_unlock m a).
+Proof.
+  destruct a as [k l|rs|rs|]; cbn [raw_unlock].
+  - apply (rr_unlock_tail m (RLeaf k l)).
+  - apply ops_in_seqs_map. intros; apply rr_unlock_tail.
+  - apply ops_in_seqs_map. intros; apply rr_unlock_tail.
+  - constructor.
+Qed.
+
+Lemma trace_set_keyf w t b : w_trace (set_keyf w t b) = w_trace w.
+Proof. reflexivity. Qed.
+
 Section ScopedQ.
   Variables (t : tid) (m : mode) (am : addrmap) (s : shape) (lent : bool) (body : list csop).
   Hypothesis Ha : acquirable s = true.
@@ -361,7 +399,9 @@ Section ScopedQ.
                     | None => w_psn w
                     end) /\
       w_keyf w' t = (if lent then w_keyf w t else false) /\
-      (forall x, x <> t -> w_keyf w' x = w_keyf w x).
+      (forall x, x <> t -> w_keyf w' x = w_keyf w x) /\
+      (* the trace: acquisition, closure-entry marker, user events, then no acquisition and no marker any more *)
+      exists w2 evR, frame (emit w1 (EMark t 1)) w2 /\ w_trace w' = evR ++ w_trace w2 /\ Forall tail_ev evR.
   Proof.
     intros Q Racq Eacq Kacq Can.
     assert (NDk : NoDup (locks_of (kleaves s))) by (rewrite <- leaves_kleaves; exact ND).
@@ -399,7 +439,7 @@ Section ScopedQ.
                         = (OPanic, w4)).
         { rewrite (run_then_done _ _ _ _ _ _ _ Racq). unfold pthen at 1. cbn [run]. rewrite Rc.
           unfold pthen at 1. cbn [run op_ do_op]. fold w3. unfold pthen. cbn [run]. rewrite R4. reflexivity. }
-        exists (if negb lent then set_keyf w4 t false else w4). split; [|split; [|split]].
+        exists (if negb lent then set_keyf w4 t false else w4). split; [|split; [|split; [|split]]].
         * rewrite run_bind. rewrite (run_with_key_panic _ _ _ _ _ _ _ Rbody). reflexivity.
         * assert (E : effp w w4 f0 (upd (w_psn w) p true)).
           { eapply effp_ext; [eapply effp_trans; [exact E2|]; eapply effp_trans; [|apply eff_effp; exact E4]| |].
@@ -414,13 +454,15 @@ Section ScopedQ.
           -- apply upd_same.
         * intros x Hx. destruct lent; cbn [negb]; cbn; [|rewrite upd_other by exact Hx];
             rewrite (eff_keyf _ _ _ E4); cbn; apply K2.
+        * destruct (run_tail nopw t _ _ _ _ (raw_unlock_tail m a) R4) as [evR [TR FR]]. exists w2, evR.
+          split; [exact Fc|]. split; [|exact FR]. destruct lent; cbn [negb]; [exact TR|rewrite trace_set_keyf; exact TR].
       + (* closure returns: release, drop(key) *)
         destruct (run_raw_unlock t m am s w2 Q2 Ha ND H2) as [w4 [R4 E4]]. fold a in R4.
         assert (Rbody : run nopw t (acq ;; Catch (closure m items body) (op_ (OPoison p) ;; raw_unlock m a) ;; raw_unlock m a) w
                         = (ODone VUnit, w4)).
         { rewrite (run_then_done _ _ _ _ _ _ _ Racq).
           rewrite (run_then_done _ _ _ _ _ VUnit w2) by (apply (run_catch_done _ _ _ _ _ _ _ Rc)). exact R4. }
-        exists (if negb lent then set_keyf w4 t false else w4). split; [|split; [|split]].
+        exists (if negb lent then set_keyf w4 t false else w4). split; [|split; [|split; [|split]]].
         * rewrite run_bind. rewrite (run_with_key_done _ _ _ _ _ _ _ _ Rbody). reflexivity.
         * assert (E : effp w w4 f0 (w_psn w)).
           { eapply effp_ext; [eapply effp_trans; [exact E2|apply eff_effp; exact E4]| |].
@@ -431,6 +473,8 @@ Section ScopedQ.
           rewrite (eff_keyf _ _ _ E4). apply K2.
         * intros x Hx. destruct lent; cbn [negb]; cbn; [|rewrite upd_other by exact Hx];
             rewrite (eff_keyf _ _ _ E4); apply K2.
+        * destruct (run_tail nopw t _ _ _ _ (raw_unlock_tail m a) R4) as [evR [TR FR]]. exists w2, evR.
+          split; [exact Fc|]. split; [|exact FR]. destruct lent; cbn [negb]; [exact TR|rewrite trace_set_keyf; exact TR].
     - (* lock / collection: utils::scoped_* *)
       destruct (run_raw_unlock t m am s w2 Q2 Ha ND H2) as [w4 [R4 E4]]. fold a in R4.
       assert (E : effp w w4 f0 (w_psn w)).
@@ -440,13 +484,15 @@ Section ScopedQ.
       destruct haspanic eqn:Hp.
       + assert (Rbody : run nopw t (acq ;; Catch (closure m items body) (raw_unlock m a)) w = (OPanic, w4)).
         { rewrite (run_then_done _ _ _ _ _ _ _ Racq). cbn [run]. rewrite Rc, R4. reflexivity. }
-        exists (if negb lent then set_keyf w4 t false else w4). split; [|split; [|split]].
+        exists (if negb lent then set_keyf w4 t false else w4). split; [|split; [|split; [|split]]].
         * rewrite run_bind. rewrite (run_with_key_panic _ _ _ _ _ _ _ Rbody). reflexivity.
         * destruct lent; cbn [negb]; [exact E|]. destruct E. constructor; simpl; auto.
         * destruct lent; cbn [negb]; cbn; [|apply upd_same].
           rewrite (eff_keyf _ _ _ E4). apply K2.
         * intros x Hx. destruct lent; cbn [negb]; cbn; [|rewrite upd_other by exact Hx];
             rewrite (eff_keyf _ _ _ E4); apply K2.
+        * destruct (run_tail nopw t _ _ _ _ (raw_unlock_tail m a) R4) as [evR [TR FR]]. exists w2, evR.
+          split; [exact Fc|]. split; [|exact FR]. destruct lent; cbn [negb]; [exact TR|rewrite trace_set_keyf; exact TR].
       + (* release happens after drop(key), on the world where the key flag is already clear *)
         assert (Rbody : run nopw t (acq ;; Catch (closure m items body) (raw_unlock m a)) w = (ODone VUnit, w2)).
         { rewrite (run_then_done _ _ _ _ _ _ _ Racq). apply (run_catch_done _ _ _ _ _ _ _ Rc). }
@@ -454,7 +500,7 @@ Section ScopedQ.
         assert (Q3 : quiet w3) by (unfold w3; destruct lent; cbn; [exact Q2|destruct Q2 as [A [B C]]; repeat split; assumption]).
         assert (H3 : held_all t m (kleaves s) (w_raw w3) = true) by (unfold w3; destruct lent; exact H2).
         destruct (run_raw_unlock t m am s w3 Q3 Ha ND H3) as [w5 [R5 E5]]. fold a in R5.
-        exists w5. split; [|split; [|split]].
+        exists w5. split; [|split; [|split; [|split]]].
         * rewrite run_bind. rewrite (run_with_key_done _ _ _ _ _ _ _ _ Rbody). fold w3.
           rewrite (run_then_done _ _ _ _ _ _ _ R5). reflexivity.
         * eapply effp_ext; [eapply effp_trans; [exact E2|]; eapply effp_trans; [|apply eff_effp; exact E5]| |].
@@ -465,6 +511,8 @@ Section ScopedQ.
         * rewrite (eff_keyf _ _ _ E5). unfold w3. destruct lent; cbn; [apply K2|apply upd_same].
         * intros x Hx. rewrite (eff_keyf _ _ _ E5). unfold w3. destruct lent; cbn; [|rewrite upd_other by exact Hx];
             apply K2.
+        * destruct (run_tail nopw t _ _ _ _ (raw_unlock_tail m a) R5) as [evR [TR FR]]. exists w2, evR.
+          split; [exact Fc|]. split; [|exact FR]. rewrite TR. unfold w3. destruct lent; reflexivity.
   Qed.
 End ScopedQ.
 
